@@ -91,6 +91,17 @@ fn main() {
             let out = p.exec(&mut ctx, &case);
             println!("{}", serde_json::to_string_pretty(&out).unwrap());
         }
+        "probe-lazy" => {
+            use gluon::ThreadExt;
+            let vm = gl::new_vm(gl::Settings::default());
+            vm.load_script("cellmod", "let { lazy, force } = import! std.lazy\n{ cell = lazy (\\u -> [1, 2, 3]) }").unwrap();
+            let user = "let { force } = import! std.lazy\nlet m = import! cellmod\nforce m.cell";
+            println!("{:?}", gl::run(&vm, "u1", user));
+            vm.collect();
+            for i in 0..50 { let _ = gl::run(&vm, "churn", &format!("let xs = [{}, 2, 3, 4]\nxs", i)); }
+            vm.collect();
+            println!("{:?}", gl::run(&vm, "u2", user));
+        }
         "probe-leak" => {
             use gluon::vm::thread::ThreadInternal;
             let vm = gl::new_vm(gl::Settings::default());
